@@ -3,14 +3,14 @@ C01 - the stored block-header chain is always fully valid, whatever peers send.
 Property theorems only; the lemmas (loop invariant of `handleHeadersMsg`) live in
 Neutrino/Lemmas/BlockMgr.lean.
 -/
-import Neutrino.Lemmas.BlockMgr
+import Neutrino.Lemmas.BlockMgrInv
 import Neutrino.Gen.BlockMgr
 namespace Neutrino.BM
 
 /-- The invariant C01/C02/C19 share (DESIGN 6.6), C01 part: the stored chain is
 well formed, no write ever landed at a file position other than the height it was
 indexed under, and `headerList.back` is the stored tip whenever the handler is idle. -/
-def Inv (c : Cfg) (s : State) : Prop :=
+def InvC01 (c : Cfg) (s : State) : Prop :=
   chainLinkedValid c.tbl s.log = true ∧ s.corrupt = false ∧ ListAnchored s
 
 /-- `BM.inv_step`: every event (headers from any peer, inv, new/done peer, peer height,
@@ -26,18 +26,34 @@ from any number of peers the stored chain starts with genesis, every header name
 predecessor and is valid on its own branch (btcd's verdict for that header), no write was
 misplaced, and the in-memory list is anchored on the stored tip. -/
 theorem C01_chain_valid_partial (c : Cfg) (hw : 1 ≤ c.win) (peers : List Peer) (es : List Ev) :
-    Inv c (run c (init c peers) es) := by
+    InvC01 c (run c (init c peers) es) := by
   have h := inv1_run c hw _ es (inv1_init c peers)
   exact ⟨h.good.chainLinkedValid, h.clean, h.anchored⟩
 
-/-- The full C01 statement, including "equals every checkpoint at its height".
-The checkpoint clause is NOT yet proved in Lean (it needs `s.ncp = findNextCp c.cps
-(tipHeight s.log)` as a further invariant and sortedness lemmas for `findNextCp` /
-`findPrevCp`); it is checked by the oracle `cpsHold` on every dump of the real system. -/
-def C01_chain_valid : Prop :=
-  ∀ (c : Cfg) (peers : List Peer) (es : List Ev), 1 ≤ c.win →
-    c.cps.Pairwise (fun a b => a.height < b.height) → (∀ cp ∈ c.cps, 0 < cp.height) →
-    chainValid c (run c (init c peers) es).log = true
+/-- **C01 in full, every history**: for every validity/work table, every ascending checkpoint
+list, every window size ≥ 1, any number of peers and every event list, the stored chain is
+`ChainValid` - genesis first, each header names its predecessor, each is valid on its own
+branch, and the header at every checkpoint height IS the checkpoint.  (`chainValid` is the very
+predicate the driver evaluates on the real store after every event.) -/
+theorem C01_chain_valid (c : Cfg) (ok : CpsOk c.cps) (hw : 1 ≤ c.win) (peers : List Peer) (es : List Ev) :
+    chainValid c (run c (init c peers) es).log = true := by
+  have h := inv_run c ok hw _ es (inv_init c ok peers)
+  simp only [chainValid, Bool.and_eq_true]
+  exact ⟨h.good.chainLinkedValid, h.cps.cpsHold⟩
+
+/-- `CheckpointsPassed`: in every reachable state `nextCheckpoint` is the first checkpoint above
+the stored tip, every checkpoint at or below the tip is held, and the WHOLE in-memory header list
+is the top of the stored chain (`FullAnch`; its back is the stored tip). -/
+theorem C01_checkpoints_passed (c : Cfg) (ok : CpsOk c.cps) (hw : 1 ≤ c.win) (peers : List Peer) (es : List Ev) :
+    let s := run c (init c peers) es
+    s.ncp = findNextCp c.cps (tipHeight s.log) ∧ CpsHold c.cps s.log ∧ FullAnch s.log s.hl ∧ s.corrupt = false := by
+  intro s
+  have h := inv_run c ok hw _ es (inv_init c ok peers)
+  exact ⟨h.ncp, h.cps, h.anch, h.clean⟩
+
+/-- the full shared invariant is inductive (`BM.inv_step` of DESIGN 6.6) -/
+theorem BM.inv_step_full (c : Cfg) (ok : CpsOk c.cps) (hw : 1 ≤ c.win) (s : State) (e : Ev) (h : BM.Inv c s) :
+    BM.Inv c (step c s e).1 := Neutrino.BM.inv_step c ok hw s e h
 
 /-- abstract lookups: by height = position in the log, by hash = `idxOf`, tip = last. -/
 theorem C01_lookups_agree (c : Cfg) (hw : 1 ≤ c.win) (peers : List Peer) (es : List Ev) :
@@ -97,7 +113,8 @@ def exPeers : List Peer := [{ id := 1, cand := true }, { id := 2, cand := true }
 
 example : (run exCfg (init exCfg exPeers) [.newPeer 1, .headers 1 [1, 2], .headers 1 [3, 4]]).log = [0, 1, 3, 4] := by decide
 example : (run exCfg (init exCfg exPeers) [.newPeer 1, .headers 1 [1, 2], .headers 2 [5]]).log = [0, 1] := by decide
-example : Inv exCfg (run exCfg (init exCfg exPeers) [.newPeer 1, .headers 1 [1, 2], .headers 1 [3, 4]]) :=
+example : CpsOk exCfg.cps := ⟨by simp [exCfg], by simp [exCfg]⟩
+example : InvC01 exCfg (run exCfg (init exCfg exPeers) [.newPeer 1, .headers 1 [1, 2], .headers 1 [3, 4]]) :=
   C01_chain_valid_partial exCfg (by decide) exPeers _
 
 end Neutrino.BM
